@@ -581,8 +581,17 @@ class _Frame:
         self.run_block(st.body)
 
     def s_Try(self, st):
+        # the lazy-creation idiom `try: self.__x ... except AttributeError: self.__x = <initial>`: inside such a body a private
+        # attribute the model does not hold yet does not exist yet (the program raises AttributeError there)
+        lazy = any(h.type is not None and "AttributeError" in (dotted(h.type) or ast.unparse(h.type)) for h in st.handlers)
+        if lazy:
+            self.I.attr_try_depth = getattr(self.I, "attr_try_depth", 0) + 1
         try:
-            self.run_block(st.body)
+            try:
+                self.run_block(st.body)
+            finally:
+                if lazy:
+                    self.I.attr_try_depth -= 1
         except XRaise as e:
             for h in st.handlers:
                 hn = dotted(h.type) if h.type is not None else None
@@ -1010,6 +1019,10 @@ class _Frame:
                 return [obj[int(k)] for k in key]
             return obj[key]
         except (IndexError, KeyError, TypeError, XArrayError) as e:
+            if isinstance(e, KeyError) and isinstance(obj, dict):
+                raise XRaise("KeyError", str(e))  # a missing key of a plain dict: the program itself raises here
+            if isinstance(e, IndexError) and isinstance(obj, (list, tuple, str)) and isinstance(key, int):
+                raise XRaise("IndexError", str(e))
             raise self.bad(f"subscript failed: {type(e).__name__}: {e}", n)
 
     def e_Starred(self, n):
@@ -1136,6 +1149,8 @@ class _Frame:
         ce, owner = self.I.repo.class_attr(obj.cls, name)
         if ce is not None:
             return self.I.eval_expr(ce, {}, owner.file, owner.module)
+        if getattr(self.I, "attr_try_depth", 0) > 0 and name.startswith("_") and "__" in name[1:] and name != attr:
+            raise XRaise("AttributeError", f"'{obj.cls.name}' object has no attribute '{name}'")
         raise self.bad(f"attribute {obj.cls.name}.{attr} is not modelled", n)
 
     def class_attr(self, ci: ClassInfo, attr, n):
